@@ -637,6 +637,66 @@ Definition u_ok (u : ucase) : bool :=
   && ok_pages [d] [] (pm_of (u_perms u)) (pm_of (i_perm2 u)) (map Z.of_nat (seq 0 np))
   && forallb (perm_eqb P_RX) (i_cp_after u).
 
+(* ------------------------------------------------------------------ end-to-end cases *)
+Record ecase := {
+  e_ptype : ptype; e_funcs : bytes; e_defmod : bytes;
+  e_regok : list (bytes * bool); e_tbl : list (bytes * bytes * bool);
+  e_ty : N; e_min : N; e_lib : bytes;
+  e_text_addr : Z; e_text_size : Z; e_next_mapped : bool;
+  e_wbase : N; e_before : bytes; e_syms : list sym; e_targets : list N;
+  (* observed on the real uftrace record run *)
+  o_died : bool; o_after : bytes; o_traced : list bytes; o_same_output : bool; o_rc_same : bool;
+  o_wx : N; o_tramp_perm : perm
+}.
+Definition e_oracle (e : ecase) : oracle := mk_oracle (e_regok e) (e_tbl e).
+Definition e_cfg (e : ecase) (tramp : Z) : cfg :=
+  {| c_pats := parse_pattern_list (e_oracle e) (e_funcs e) (e_defmod e) (e_ptype e);
+     c_lib := e_lib e; c_so := None; c_ty := dyntype_of (e_ty e); c_tramp := tramp; c_min := e_min e |}.
+Definition e_pm (e : ecase) : pmap :=
+  fun pg => if in_range (e_text_addr e) (e_text_size e) pg then P_RX
+            else if e_next_mapped e && (pg =? page_of (align_up (e_text_addr e + e_text_size e)))%Z then P_R
+            else Unmapped.
+Definition names_subset (a b : list bytes) : bool := forallb (fun n => existsb (bytes_eqb n) b) a.
+Definition names_eq (a b : list bytes) : bool := names_subset a b && names_subset b a.
+
+Definition e_model (e : ecase) : option (bytes * list bytes) :=
+  match setup_trampoline (e_pm e)
+          {| d_text_addr := e_text_addr e; d_text_size := e_text_size e; d_tramp := 0; d_ty := dyntype_of (e_ty e) |} with
+  | None => None
+  | Some (_, d1) =>
+      let c := e_cfg e (d_tramp d1) in
+      let m0 := mem_of (e_wbase e) (e_before e) in
+      let m := fst (patch_func_matched (e_oracle e) c (e_syms e) (e_targets e) (m0, stats0)) in
+      Some (window m (e_wbase e) (length (e_before e)),
+            map s_name (filter (fun s => let en := entry_of m0 (s_addr s) in
+                                         bytes_eqb (rd m en 5) (call_insn (d_tramp d1) en))
+                               (visited c (e_syms e) (e_targets e))))
+  end.
+Definition e_agrees (e : ecase) : bool :=
+  match e_model e with
+  | None => o_died e
+  | Some (w, names) => negb (o_died e) && bytes_eqb w (o_after e) && names_eq names (o_traced e)
+  end.
+
+Definition tramp_of (text_addr text_size : Z) : Z :=
+  let tend := (text_addr + text_size)%Z in
+  let t0 := (align_up tend - 16)%Z in
+  if (t0 <? tend)%Z then (t0 + 16)%Z else t0.
+(* the property on what was observed: the program ran and printed what it prints natively, no mapping
+   is writable and executable, the trampoline page is r-x, the code bytes changed exactly as the
+   specification says, and exactly the selected functions show up in the trace *)
+Definition e_ok (e : ecase) : bool :=
+  let c := e_cfg e (tramp_of (e_text_addr e) (e_text_size e)) in
+  let m0 := mem_of (e_wbase e) (e_before e) in
+  let vis := visited c (e_syms e) (e_targets e) in
+  negb (o_died e) && o_same_output e && o_rc_same e && (o_wx e =? 0) && perm_eqb (o_tramp_perm e) P_RX
+  && ok_update (e_oracle e) c (e_syms e) (e_targets e) (e_wbase e) (e_before e) (o_after e)
+  && names_eq (map s_name (filter (fun s => match spec_change (e_oracle e) c m0 s with
+                                            | Some (_, op :: _) => op =? 232
+                                            | _ => false
+                                            end) vis))
+              (o_traced e).
+
 Fixpoint bad_indices {A} (f : A -> bool) (l : list A) (i : nat) : list nat :=
   match l with
   | [] => []
